@@ -86,8 +86,14 @@ Definition idx35_ok (s : state) : Prop := idx_matches k3_eqb (reds (stake s)) (i
 Definition idx36_ok (s : state) : Prop := idx_matches k3_eqb (reds (stake s)) (idx36 (stake s)).
 (* the unbonding-id index points at the record that holds the entry *)
 Definition idx38_ok (s : state) : Prop :=
-  forall id d v, sget Z.eqb id (unbidx (stake s)) = Some (UKubd d v) ->
-    exists u, ubd_of s d v = Some u /\ existsb (fun e => ue_id e =? id) (u_entries u) = true.
+  (forall id d v, sget Z.eqb id (unbidx (stake s)) = Some (UKubd d v) ->
+    exists u, ubd_of s d v = Some u /\ existsb (fun e => ue_id e =? id) (u_entries u) = true) /\
+  (forall id d v w, sget Z.eqb id (unbidx (stake s)) = Some (UKred d v w) ->
+    exists r, red_of s d v w = Some r /\ existsb (fun e => re_id e =? id) (r_entries r) = true).
+(* ... and every entry is indexed *)
+Definition idx38_complete (s : state) : Prop :=
+  (forall kv e, In kv (ubds (stake s)) -> In e (u_entries (snd kv)) -> sget Z.eqb (ue_id e) (unbidx (stake s)) <> None) /\
+  (forall kv e, In kv (reds (stake s)) -> In e (r_entries (snd kv)) -> sget Z.eqb (re_id e) (unbidx (stake s)) <> None).
 
 Definition matchb {K V} (eqb : K -> K -> bool) (m : list (K * V)) (ix : list (K * unit)) : bool :=
   forallb (fun kv => shas eqb (fst kv) ix) m && forallb (fun kv => shas eqb (fst kv) m) ix.
@@ -110,17 +116,35 @@ Definition involved (g : govst) (pid : Z) (p : proposal) (a : addr) : bool :=
 Definition is_open (p : proposal) : bool := match p_status p with PClosed => false | _ => true end.
 Definition involved_open (s : state) (a : addr) : Prop :=
   exists pid p, sget Z.eqb pid (props (gov s)) = Some p /\ is_open p = true /\ involved (gov s) pid p a = true.
-(* what the code actually looks at: queued proposals whose end time has already been reached *)
+(* what the scan looks at: every queued proposal *)
 Definition seen_inactive (s : state) (from to : addr) : Prop :=
-  exists te pid p, In (te, pid) (inactiveq (gov s)) /\ te <= now s /\ sget Z.eqb pid (props (gov s)) = Some p /\
+  exists te pid p, In (te, pid) (inactiveq (gov s)) /\ sget Z.eqb pid (props (gov s)) = Some p /\
     ((from =? p_proposer p) || (to =? p_proposer p) || has_deposit (gov s) pid from || has_deposit (gov s) pid to) = true.
 Definition seen_active (s : state) (from to : addr) : Prop :=
-  exists te pid p, In (te, pid) (activeq (gov s)) /\ te <= now s /\ sget Z.eqb pid (props (gov s)) = Some p /\
+  exists te pid p, In (te, pid) (activeq (gov s)) /\ sget Z.eqb pid (props (gov s)) = Some p /\
     ((from =? p_proposer p) || (to =? p_proposer p) || has_deposit (gov s) pid from || has_deposit (gov s) pid to
       || has_vote (gov s) pid from || has_vote (gov s) pid to) = true.
 Definition queued_exist (s : state) : Prop :=
-  (forall te pid, In (te, pid) (inactiveq (gov s)) -> te <= now s -> sget Z.eqb pid (props (gov s)) <> None) /\
-  (forall te pid, In (te, pid) (activeq (gov s)) -> te <= now s -> sget Z.eqb pid (props (gov s)) <> None).
+  (forall te pid, In (te, pid) (inactiveq (gov s)) -> sget Z.eqb pid (props (gov s)) <> None) /\
+  (forall te pid, In (te, pid) (activeq (gov s)) -> sget Z.eqb pid (props (gov s)) <> None).
+
+(* gov store shape (decidable; evaluated on the real states): an open proposal sits in the queue of its
+   period under its end time, votes exist only on proposals in their voting period, queued ids exist *)
+Definition govwfb (s : state) : bool :=
+  let g := gov s in
+  forallb (fun kv : Z * proposal =>
+    match p_status (snd kv) with
+    | PDeposit => existsb (fun x => (fst x =? p_dep_end (snd kv)) && (snd x =? fst kv)) (inactiveq g)
+    | PVoting => existsb (fun x => (fst x =? p_vote_end (snd kv)) && (snd x =? fst kv)) (activeq g)
+    | PClosed => true
+    end) (props g) &&
+  forallb (fun kv : (Z * Z) * unit =>
+    match sget Z.eqb (fst (fst kv)) (props g) with
+    | Some p => match p_status p with PVoting => true | _ => false end
+    | None => false
+    end) (votes g) &&
+  forallb (fun x : Z * Z => shas Z.eqb (snd x) (props g)) (inactiveq g) &&
+  forallb (fun x : Z * Z => shas Z.eqb (snd x) (props g)) (activeq g).
 
 Definition has_staking (s : state) (a : addr) : Prop :=
   (exists v, del_of s a v <> None) \/ (exists v, ubd_of s a v <> None) \/ (exists v w, red_of s a v w <> None).
@@ -155,6 +179,13 @@ Definition has_del (s : state) (a v : addr) : bool := shas k2_eqb (a, v) (dels (
 Definition has_ubd (s : state) (a v : addr) : bool := shas k2_eqb (a, v) (ubds (stake s)).
 Definition has_red (s : state) (a v w : addr) : bool := shas k3_eqb (a, (v, w)) (reds (stake s)).
 
+(* what Execute writes into the unbonding-id index, in order *)
+Definition unb_writes (from to : addr) (s : state) : list (Z * ukey) :=
+  concat (map (fun kv : k2 * ubd_rec => map (fun e => (ue_id e, UKubd to (u_val (snd kv)))) (u_entries (snd kv)))
+              (filter (from_rec2 from) (ubds (stake s)))) ++
+  concat (map (fun kv : k3 * red_rec => map (fun e => (re_id e, UKred to (r_src (snd kv)) (r_dst (snd kv)))) (r_entries (snd kv)))
+              (filter (from_rec3 from) (reds (stake s)))).
+
 Record moved (from to : addr) (s s' : state) : Prop := {
   (* the portfolio: the target receives, the source is left with nothing, nobody else is touched *)
   mv_bal : forall a d, bal_of s' a d = sel from to a (bal_of s to d + bal_of s from d) 0 (bal_of s a d);
@@ -162,13 +193,16 @@ Record moved (from to : addr) (s s' : state) : Prop := {
   mv_start : forall a v, start_of s' a v = sel from to a (start_of s from v) None (start_of s a v);
   mv_ubd : forall a v, ubd_of s' a v = sel from to a (option_map (to_ubd to) (ubd_of s from v)) None (ubd_of s a v);
   mv_red : forall a v w, red_of s' a v w = sel from to a (option_map (to_red to) (red_of s from v w)) None (red_of s a v w);
-  (* the by-validator indexes that the code rewrites *)
+  (* the by-validator indexes *)
+  mv_i71 : forall a v, in71 s' a v = sel from to a (has_del s from v || in71 s to v) (negb (has_del s from v) && in71 s from v) (in71 s a v);
   mv_i33 : forall a v, in33 s' a v = sel from to a (has_ubd s from v || in33 s to v) (negb (has_ubd s from v) && in33 s from v) (in33 s a v);
   mv_i35 : forall a v w, in35 s' a v w = sel from to a (has_red s from v w || in35 s to v w) (negb (has_red s from v w) && in35 s from v w) (in35 s a v w);
   mv_i36 : forall a v w, in36 s' a v w = sel from to a (has_red s from v w || in36 s to v w) (negb (has_red s from v w) && in36 s from v w) (in36 s a v w);
-  (* ... and the two it does not *)
-  mv_i71 : idx71 (stake s') = idx71 (stake s);
-  mv_unb : unbidx (stake s') = unbidx (stake s);
+  (* the unbonding-id index: the ids of the source's entries are re-pointed at the target's record keys *)
+  mv_unb : forall id k, sget Z.eqb id (unbidx (stake s')) = Some k ->
+     In (id, k) (unb_writes from to s) \/
+     (~ In id (map fst (unb_writes from to s)) /\ sget Z.eqb id (unbidx (stake s)) = Some k);
+  mv_unb_has : forall id, In id (map fst (unb_writes from to s)) -> sget Z.eqb id (unbidx (stake s')) <> None;
   (* maturation queues: the slices at the completion times of the source's entries are renamed in place *)
   mv_ubdq : forall t, ubd_slice s' t =
      if existsb (Z.eqb t) (ubd_times s from) then map (ren_pair from to) (ubd_slice s t) else ubd_slice s t;
